@@ -13,7 +13,7 @@ import jax.numpy as jnp
 from ..core import obligation
 from .. import px, jx, sym
 from ..px import NP
-from ..sym import Eq, Holds, v_mul, v_sub, v_le
+from ..sym import Eq, Holds, Le, Lt, v_mul, v_sub, v_le
 from ..jxh import Case
 from . import c19
 from .c19 import make_hybrid, IdentityPrecond, ScalarPrecond, U
@@ -476,6 +476,100 @@ def o1_n2(h):
             ok = run_cfg(h, '%s_n2[present=%s]' % (which, ''.join(map(str, pr))), make_contraction_harness(which, pr), goals, report_raise=False)
             if not ok:
                 return blocked(h, len(sets) - k - 1)
+
+
+# ------------------------------------------------------------------------------------------ the adjoint CG's exit contract (inductive step)
+def select_cg_loop(fd):
+    import ast
+    k = [i for i, st_ in enumerate(fd.body) if isinstance(st_, ast.For)][0]
+    return fd.body[k], fd.body[:k]
+
+
+def make_adjoint_cg_step_harness(n, precond_kind):
+    """ONE pass through the body of the `for i in range(max_cg_iters)` loop of the real solve_trust_region_minimization in the
+    configuration the reverse rules use (start 0, infinite radius), from an ARBITRARY loop-head state satisfying the residual
+    invariant r = r0 + H z; the statements before the loop (tolerance, first direction, choice of the inner products) are the
+    real ones and run first (px.extract_step)"""
+    def fn(ex):
+        es = px.load_module('optimism/EquationSolver.py')
+        step, src, names = px.extract_step(es, 'solve_trust_region_minimization', select_cg_loop)
+        r0 = ex.vec('r0', n)                                  # the cotangent v handed to the adjoint solve
+        Hm = ex.mat('H', n, n, symmetric=True)
+        hv = lambda w: NP.dot(Hm, w)
+        if precond_kind == 'identity':
+            precond = lambda w: w
+        else:
+            Md = ex.vec('M', n)                               # preconditioner = inverse of an arbitrary positive diagonal matrix (n=1: any SPD preconditioner)
+            for k in range(n):
+                ex.assume(Md[k] > 0)
+            precond = lambda w: w / Md
+        cg_tol, ratio = ex.real('cg_tol'), ex.real('cg_inexact_solve_ratio')
+        ex.assume(cg_tol > 0)
+        ex.assume(ratio >= 0)
+        ex.assume(ratio < 1)
+        ip = bool(ex.bool('use_preconditioned_inner_product_for_cg'))
+        settings = es.get_settings(cg_tol=cg_tol, cg_inexact_solve_ratio=ratio, max_cg_iters=3, use_preconditioned_inner_product_for_cg=ip, debug_info=False)
+        rr0 = NP.dot(r0, r0)
+        tol2 = NP.maximum(cg_tol * cg_tol, ratio * ratio * rr0)     # the tolerance the source states: max(cg_tol^2, ratio^2 |r0|^2), EUCLIDEAN norm of the initial residual
+        state = {}
+
+        def havoc(loc):
+            state['prefix'] = dict(loc)
+            ex.goal('tolerance_is_the_stated_expression', Eq(U(loc['cgTolSquared']), U(tol2)),
+                    info='cgTolSquared computed by the real statements before the loop vs max(cg_tol^2, ratio^2 r0.r0)')
+            z, d = ex.vec('z', n), ex.vec('d', n)
+            r = r0 + hv(z)                                    # Inv: r is the residual of the current iterate (by construction)
+            rPr = ex.real('rPr')
+            ex.assume(rPr > 0)                                # r.P r of a non-zero residual
+            ex.assume(NP.dot(d, hv(d)) > 0)                   # positive curvature along d (SPD Hessian at the solution; the other sign is the known finding)
+            state.update(z=z, d=d)
+            return dict(z=z, r=r, d=d, rPr=rPr, zz=ex.real('zz'), zd=ex.real('zd'), dd=ex.real('dd'), Pr=precond(r))
+        pre = dict(i=0)
+        with onp.errstate(all='ignore'):
+            kind, val, loc = step(pre, havoc, onp.zeros(n), onp.array(r0, copy=True), hv, precond, float('inf'), settings)
+        if 'prefix' not in state:
+            # returned before the loop: the zero step with 0 iterations; its residual is r0
+            z_, c_, st_, it_ = val
+            ex.goal('entry_exit_is_the_zero_step_reported_interior', Holds(st_ == es.interiorString and it_ == 0 and all(float(t) == 0.0 for t in z_)))
+            ex.goal('entry_exit_residual_below_stated_tolerance', Lt(U(rr0), U(tol2)))
+            return
+        if kind == 'return':
+            z_, c_, st_, it_ = val
+            res = r0 + hv(z_)                                 # the true residual H z + r0 of the returned adjoint vector
+            ex.goal('returned_status_is_interior', Holds(st_ == es.interiorString), info='positive curvature, infinite radius: %r' % (st_,))
+            ex.goal('converged_exit_means_euclidean_residual_below_tolerance', Lt(U(NP.dot(res, res)), U(tol2)),
+                    info='|H z + r0|^2 of the vector returned as converged vs max(cg_tol^2, ratio^2 |r0|^2)')
+            ex.goal('converged_exit_tests_the_carried_residual', Eq(U(onp.asarray(loc['r'], dtype=object)), U(res)))
+        else:
+            ex.goal('continuing_means_euclidean_residual_not_below_tolerance', Le(U(tol2), U(NP.dot(loc['r'], loc['r']))),
+                    info='the loop goes on although the residual already meets the tolerance')
+            ex.goal('residual_invariant_preserved', Eq(U(onp.asarray(loc['r'], dtype=object)), U(r0 + hv(loc['z']))))
+            ex.goal('rPr_refreshed', Eq(U(loc['rPr']), U(NP.dot(loc['r'], precond(loc['r'])))))
+    return fn
+
+
+ADJ_CG_GOALS = ['tolerance_is_the_stated_expression', 'converged_exit_means_euclidean_residual_below_tolerance', 'converged_exit_tests_the_carried_residual',
+                'continuing_means_euclidean_residual_not_below_tolerance', 'residual_invariant_preserved', 'entry_exit_residual_below_stated_tolerance']
+
+
+@obligation(P, 'O1.adjoint_cg_exit_contract', cap=600)
+def o1_cg_exit(h):
+    """the exit contract the reverse rules rely on: one pass through the real CG loop body of solve_trust_region_minimization
+    (infinite radius, either inner-product mode, arbitrary positive diagonal preconditioner) from ANY loop-head state with
+    r = r0 + H z: it returns `interior` exactly when the EUCLIDEAN residual |H z + r0|^2 is below max(cg_tol^2, ratio^2 |r0|^2),
+    the tolerance is that expression, and the invariant is preserved — by induction every converged adjoint vector meets the
+    stated tolerance (the n=1 obligations reach the exact solution in one step and cannot see the stopping test)"""
+    _meta(h)
+    h.encoded('optimism.EquationSolver:solve_trust_region_minimization (statements before the CG loop + one loop body, extracted by AST from the current source)',
+              'optimism.EquationSolver:cg_inner_products_preconditioned', 'optimism.EquationSolver:cg_inner_products_unpreconditioned', 'optimism.EquationSolver:update_step_length_squared')
+    h.bounds('n=2 (thorough: also n=1, identity preconditioner): cotangent r0, symmetric H, loop-head iterate z, direction d, rPr, zz, zd, dd: all symbolic; '
+             'preconditioner = inverse of a symbolic positive diagonal matrix; cg_tol > 0, 0 <= cg_inexact_solve_ratio < 1 symbolic; '
+             'use_preconditioned_inner_product_for_cg: symbolic boolean; trSize = inf')
+    h.assume_note('inductive step: the pre-state is any state with r = r0 + H z, rPr > 0, d.H d > 0, reachable or not',
+                  'positive curvature along the search direction (SPD Hessian at the solution; negative curvature is the open known finding O1.reverse_rule_negative_curvature)')
+    configs = [(2, 'diagonal')] + ([(1, 'diagonal'), (2, 'identity')] if h.thorough() else [])
+    for n, pk in configs:
+        px.run_px(h, 'cg_step[n=%d,%s preconditioner]' % (n, pk), make_adjoint_cg_step_harness(n, pk), cap=40, div_mode='goal', sqrt_mode='goal', expect_goals=ADJ_CG_GOALS)
 
 
 # ------------------------------------------------------------------------------------------ the gate: jax.grad through the REAL functions
